@@ -178,6 +178,7 @@ func (o *objectImpl) SetProperty(name value.Value, newValue value.Value) error {
 	if err != nil {
 		return fmt.Errorf("cannot write value: %s", err)
 	}
+	whole := append([]byte{}, buf.Bytes()...)
 	sig, err := basic.ReadString(&buf)
 	if err != nil {
 		return fmt.Errorf("invalid signature: %s", err)
@@ -185,7 +186,15 @@ func (o *objectImpl) SetProperty(name value.Value, newValue value.Value) error {
 	data := buf.Bytes()
 	// the value must be of the declared type of the property
 	for _, p := range o.meta.Properties {
-		if p.Name == nameStr && p.Signature != sig {
+		if p.Name != nameStr {
+			continue
+		}
+		if p.Signature == "m" {
+			// a property of dynamic type holds any value: its
+			// signature travels with the data.
+			sig, data = "m", whole
+			newValue = value.Opaque(sig, data)
+		} else if p.Signature != sig {
 			return fmt.Errorf("property %s has type %s, not %s",
 				nameStr, p.Signature, sig)
 		}
